@@ -20,7 +20,13 @@ import (
 	"time"
 )
 
-const verifDir = "/verif"
+// verifDir is where the machinery lives (the check script passes its own directory, so a snapshot of /verif works too).
+var verifDir = func() string {
+	if d := os.Getenv("VP_VERIF_DIR"); d != "" {
+		return d
+	}
+	return "/verif"
+}()
 
 type budget struct {
 	Harness  string // static | clifs | exec
